@@ -147,6 +147,14 @@ func (mr *msgReader) putFlateReader() {
 
 func (mr *msgReader) close() {
 	mr.c.readMu.forceLock()
+	if mr.flateReader != nil {
+		// A compressed message is still being read, possibly further up this very
+		// call stack: a close frame between its fragments closes the connection from
+		// within msgReader.Read. Its readers must not be handed to another
+		// connection through the pools while they may still be in use.
+		mr.flateReader = nil
+		mr.flateBufio = nil
+	}
 	mr.putFlateReader()
 	if mr.dict != nil {
 		mr.dict.close()
